@@ -175,6 +175,23 @@ func (x *X) eval(env *Env, e ast.Expr) TV {
 			return TV{x.mergeVals(has, v, x.zero(mt.Elem())), mt.Elem()}
 		}
 		panic(fmt.Sprintf("contract: cannot index %s", base.T))
+	case *ast.SliceExpr:
+		base := x.eval(env, e.X)
+		if kindOf(base.T) == kString {
+			sv := base.V.(S).T
+			lo, hi := "0", "(gs.len "+sv+")"
+			if e.Low != nil {
+				lo = x.eval(env, e.Low).V.(S).T
+			}
+			if e.High != nil {
+				hi = x.eval(env, e.High).V.(S).T
+			}
+			x.noOblig++
+			r := x.strSub(sv, lo, hi)
+			x.noOblig--
+			return TV{S{r, SStr}, base.T}
+		}
+		panic("contract: slicing is only supported on strings")
 	case *ast.TypeAssertExpr:
 		base := x.eval(env, e.X)
 		t := x.resolveType(env.pkg, types.ExprString(e.Type))
@@ -388,6 +405,14 @@ func (x *X) evalCall(env *Env, e *ast.CallExpr) TV {
 			case MapV:
 				return TV{S{x.mapLen(a.T.Underlying().(*types.Map), v.Ref), SInt}, types.Typ[types.Int]}
 			}
+		case "strlastindex", "strindex":
+			a, b := x.eval(env, e.Args[0]), x.eval(env, e.Args[1])
+			sym := "strings.LastIndex"
+			if id.Name == "strindex" {
+				sym = "strings.Index"
+			}
+			x.sc.Declare(sym, []string{SStr, SStr}, SInt)
+			return TV{S{"(" + sym + " " + a.V.(S).T + " " + b.V.(S).T + ")", SInt}, types.Typ[types.Int]}
 		case "strcontains":
 			// strcontains(s, sub): the value strings.Contains(s, sub) (same symbol as the extern model)
 			a, b := x.eval(env, e.Args[0]), x.eval(env, e.Args[1])
